@@ -1,7 +1,7 @@
 """C05 - overload resolution follows the documented resolution rules."""
 from vlib.pyvc.unit import contract_unit
 from props._common import frame_unit, pyvc_units, run_replay, attach_replay
-from contracts import runner, contexts
+from contracts import runner, contexts, specs
 
 LEVEL = 'proof'
 TECHNIQUE = ('pyvc contracts on the real runner.call (kind predicate, layer '
@@ -17,8 +17,10 @@ LEVEL_TEXT = ('call(): candidates are gathered by name from the nearest '
               'delegate returned is the one the documented rules prescribe '
               '(kwargs-mode and laziness consistency, first layer with a '
               'typed match wins, unique most specific match inside it, '
-              'eager arguments evaluated once and shared). Binding rules of '
-              'map_args/get_delegate: see C12.')
+              'eager arguments evaluated once and shared). map_args / '
+              'get_delegate bind arguments as the reference binding model '
+              'prescribes on a family of signature x call shapes (hidden '
+              'parameters, defaults, aliases, keyword-only, *, **).')
 LEVEL_NOTE = ('Shapes bound the number of candidates (<=3 per layer, <=2 '
               'layers) and arguments (<=2 positional, <=1 keyword); content '
               'is symbolic. collect_functions layering is proved in C17 for '
@@ -37,6 +39,12 @@ def units(ctx):
     us += [contract_unit(c, world_setup=runner.setup)
            for c in runner.translate_contracts()]
     us += pyvc_units(contexts.contracts(), 'C05', contexts.setup)
+    us += [contract_unit(c, world_setup=specs.setup)
+           for c in specs.binding_contracts(ctx.tier)]
+    us += [contract_unit(c, world_setup=specs.setup)
+           for c in specs.delegate_contracts(ctx.tier)]
+    us += [contract_unit(c, world_setup=specs.setup)
+           for c in specs.clone_contracts()]
     return us
 
 
